@@ -53,4 +53,12 @@ MUTANTS = [
         {"file": P + "instr/instructions.py", "old": "REG3_20BIT_REGS = (\n    RegisterName(\"X\"),\n    RegisterName(\"Y\"),\n    RegisterName(\"U\"),\n    RegisterName(\"S\"),\n)", "new": "REG3_20BIT_REGS = tuple(RegisterName(n) for n in (\"X\", \"Y\", \"U\", \"S\"))"}]},
     {"id": "neutral/popf-reorder", "kind": "neutral", "props": ["C04", "C07"], "edits": [
         {"file": P + "instr/opcodes.py", "old": "        il.append(il.set_flag(CFlag, il.and_expr(1, tmp.lift(il), il.const(1, 1))))\n        il.append(il.set_flag(ZFlag, il.and_expr(1, tmp.lift(il), il.const(1, 2))))", "new": "        il.append(il.set_flag(ZFlag, il.and_expr(1, tmp.lift(il), il.const(1, 0x02))))\n        il.append(il.set_flag(CFlag, il.and_expr(1, tmp.lift(il), il.const(1, 0x01))))"}]},
+
+    # --- Rust-side changes (the crate is not compiled by the tests, so only static analysis sees them) ----------------
+    {"id": "break/rust-and-writes-carry", "kind": "break", "props": ["C06"], "expect": "C06.7/flag-signature", "edits": [
+        {"file": "sc62015/core/src/llama/eval.rs", "old": "                    InstrKind::And => ((lhs_val & rhs_val) & mask, None),", "new": "                    InstrKind::And => ((lhs_val & rhs_val) & mask, Some(false)),"}]},
+    {"id": "break/rust-mv-clobbers-carry", "kind": "break", "props": ["C06"], "expect": "C06.7/flag-signature", "edits": [
+        {"file": "sc62015/core/src/llama/eval.rs", "old": "                state.set_reg(RegName::FC, saved_fc);\n", "new": "                state.set_reg(RegName::FC, 0);\n", "count": 1}]},
+    {"id": "break/rust-swap-writes-carry", "kind": "break", "props": ["C06"], "expect": "C06.7/flag-signature", "edits": [
+        {"file": "sc62015/core/src/llama/eval.rs", "old": "            InstrKind::Swap => {", "new": "            InstrKind::Swap => {\n                state.set_reg(RegName::FC, 0);"}]},
 ]
